@@ -42,6 +42,8 @@ func genFieldValue(t *rapid.T, f InField, label string) any {
 		return rapid.StringOfN(rapid.RuneFrom([]rune(alphabet)), lo, hi, -1).Draw(t, label)
 	case "bool":
 		return rapid.Bool().Draw(t, label)
+	case "enum":
+		return rapid.SampledFrom([]string{"alpha", "beta", "gamma"}).Draw(t, label)
 	case "pattern":
 		// a regular expression: its unserialised form is not its serialised form
 		return rapid.SampledFrom([]string{"^a+$", "[0-9]{2}", "x|y", ".*", "^$"}).Draw(t, label)
@@ -74,7 +76,7 @@ func genFieldValue(t *rapid.T, f InField, label string) any {
 }
 
 func genInField(t *rapid.T, name string, depth int) InField {
-	types := []string{"int", "string", "bool", "float", "list_int", "map_int", "pattern"}
+	types := []string{"int", "string", "bool", "float", "list_int", "map_int", "pattern", "enum"}
 	if depth > 0 {
 		types = append(types, "obj", "obj")
 	}
@@ -295,6 +297,8 @@ func GenInputCase(t *rapid.T) (*Case, *InputMutation) {
 			c.InputDoc[f.Name] = []any{"a", "list"}
 		case "pattern":
 			c.InputDoc[f.Name] = "(unbalanced"
+		case "enum":
+			c.InputDoc[f.Name] = "zeta" // not one of the declared values
 		case "list_int":
 			c.InputDoc[f.Name] = []any{"x", "y"}
 		case "map_int":
